@@ -162,7 +162,7 @@ pub fn export_cmd(dir: &str) -> i32 {
             Ok(k) => k,
             Err(_) => {
                 // ring cannot generate RSA keys: export a loaded fixture key instead
-                let z = zoo.iter().find(|z| z.kind.fits(a) && z.format == KeyFormat::Pkcs8 && backend_supports(z.kind, z.format)).unwrap();
+                let z = zoo.iter().find(|z| z.kind.fits(a) && z.kind != KeyKind::Rsa2047 && z.format == KeyFormat::Pkcs8 && backend_supports(z.kind, z.format)).unwrap();
                 rc_load(z, a).unwrap()
             }
         };
@@ -172,6 +172,7 @@ pub fn export_cmd(dir: &str) -> i32 {
     }
     // whatever this back end manages to load, through whichever entry point and from whichever input form,
     // it exports as "PKCS#8": the other back end must be able to take every such export
+    let mut loaded: Vec<(String, rcgen::KeyPair)> = Vec::new();
     // the large RSA keys (signing cost): one automatic and one explicit-algorithm entry point, one digest; 8192 bits in the thorough tier
     let all_slow = std::env::var("VERIF_C16_SLOW").map(|v| v == "all").unwrap_or(false);
     for z in zoo.iter().filter(|z| z.name.contains("_1") && (!z.kind.is_slow() || all_slow || z.kind == KeyKind::Rsa6144)) {
@@ -193,8 +194,18 @@ pub fn export_cmd(dir: &str) -> i32 {
                         Ok(Err(e)) => std::fs::write(format!("{}.csr.failed", stem), format!("error {:?}", e)).unwrap(),
                         Err(p) => std::fs::write(format!("{}.csr.failed", stem), format!("panic {}", p)).unwrap(),
                     }
+                    loaded.push((stem, kp));
                 }
             }
+        }
+    }
+    // ... and once more in the opposite order on this same thread (sizes descending where they were ascending): what a
+    // key signs must not depend on which keys signed before it
+    for (stem, kp) in loaded.iter().rev() {
+        match guarded(|| rcgen::CertificateParams::default().serialize_request(kp)) {
+            Ok(Ok(csr)) => std::fs::write(format!("{}.csr2.der", stem), csr.der()).unwrap(),
+            Ok(Err(e)) => std::fs::write(format!("{}.csr.failed", stem), format!("second pass: error {:?}", e)).unwrap(),
+            Err(p) => std::fs::write(format!("{}.csr.failed", stem), format!("second pass: panic {}", p)).unwrap(),
         }
     }
     0
@@ -408,15 +419,17 @@ pub fn import_cmd(dir: &str, out: &str) -> i32 {
                         if pubder != spki {
                             return Err("public key differs from OpenSSL's".into());
                         }
-                        let foreign = std::fs::read(format!("{}/{}.csr.der", dir, stem)).map_err(|e| format!("no request from the exporter: {}", e))?;
-                        let abs = refmodel::x509::decode_csr(&foreign).value.ok_or("undecodable CSR from the exporter")?;
-                        if abs.spki_raw != spki {
-                            return Err("the request carries another public key".into());
-                        }
-                        let mut f = Vec::new();
-                        super::c01::verify_all(alg, &KeyPub { alg, raw: z.raw_pub.clone() }, &abs.cri_raw, &abs.sig, "csr signed by the exporter (key only it loads)", &mut f);
-                        if let Some(x) = f.first() {
-                            return Err(format!("{}", x));
+                        for which in ["csr", "csr2"] {
+                            let foreign = std::fs::read(format!("{}/{}.{}.der", dir, stem, which)).map_err(|e| format!("no request ({}) from the exporter: {}", which, e))?;
+                            let abs = refmodel::x509::decode_csr(&foreign).value.ok_or("undecodable CSR from the exporter")?;
+                            if abs.spki_raw != spki {
+                                return Err("the request carries another public key".into());
+                            }
+                            let mut f = Vec::new();
+                            super::c01::verify_all(alg, &KeyPub { alg, raw: z.raw_pub.clone() }, &abs.cri_raw, &abs.sig, "csr signed by the exporter (key only it loads)", &mut f);
+                            if let Some(x) = f.first() {
+                                return Err(format!("{} ({})", x, which));
+                            }
                         }
                         Ok(())
                     })();
@@ -447,12 +460,13 @@ pub fn import_cmd(dir: &str, out: &str) -> i32 {
                 return Err("public key differs from the exporter's / OpenSSL's".into());
             }
             // a request signed by the exporting back end with this key: accepted here, and independently valid
-            if let Ok(foreign) = std::fs::read(format!("{}/{}.csr.der", dir, stem)) {
+            for which in ["csr", "csr2"] {
+                let Ok(foreign) = std::fs::read(format!("{}/{}.{}.der", dir, stem, which)) else { continue };
                 let abs = refmodel::x509::decode_csr(&foreign).value.ok_or("undecodable CSR from the exporter")?;
                 let mut f = Vec::new();
                 super::c01::verify_all(alg, &KeyPub { alg, raw: k2.der_bytes().to_vec() }, &abs.cri_raw, &abs.sig, "csr signed by the exporter", &mut f);
                 if let Some(x) = f.first() {
-                    return Err(format!("{}", x));
+                    return Err(format!("{} ({}: second pass = signed again after every other key, in the opposite order)", x, which));
                 }
                 rcgen::CertificateSigningRequestParams::from_der(&foreign.clone().into()).map_err(|e| format!("this back end refuses a request signed by the exporter: {:?}", e))?;
             }
